@@ -300,6 +300,11 @@ def run(ctx):
         if lib.strip_closures(b.path) != 'db::DbInner::process_commits':
             continue
         pops = [bi for bi, t in b.calls() if call_matches(t, ['re:VecDeque.*::pop_front$']) and t['a'] and '.CommitQueue.commits' in lib.receiver_fields(b, t, 0)]
+        if not pops:
+            # the pop may sit in a private helper of the log worker's step (`let Some(commit) = self.pop_commit() else ..`)
+            fam = [x for x in lib.family(F, b.path) if x is not b]
+            poppers = set(x.path for x in fam if any(call_matches(t, ['re:VecDeque.*::pop_front$']) and t['a'] and '.CommitQueue.commits' in lib.receiver_fields(x, t, 0) for _bi, t in x.calls()))
+            pops = [bi for bi, t in b.calls() if bi in b.normal_blocks() and any(n in poppers for n in call_names(t))]
         ok_all = True
         for b2, bi in lib.calls_on_field(F, ['std::collections::VecDeque::<T, A>::push_back'], '.CommitQueue.commits', bodies=[b]):
             # (the parts are moved into the re-queued change set through references, so its data slice does not show them: the
